@@ -4,7 +4,7 @@ import re
 
 from .. import facts
 from ..cfg import Cfg
-from ..common import (arg_fields, arg_roots, arm_blocks, awaited, def_of, inst_of, method, str_guards, target_of)
+from ..common import (arg_fields, arg_roots, arm_blocks, awaited, def_of, inst_of, method, str_guards, target_of, new_async_helper)
 from ..prov import Prov, flatten, field_names
 from ..util import fns_by_key, keyname, place_of, norm, last, with_closures
 
@@ -269,20 +269,41 @@ def _watched_files(p, f, cfg, pv, sends, hsends=()):
     cpv = Prov(c)
     from ..cfg import bool_edges
     pushes = [(bi, t) for bi, t in c.calls() if method(t) == "push"]
-    ret = cpv.trace_local(0)
-    flag = None
-    for o in ret:
-        if o[0] == "un" and o[1] == "Not":
-            flag = o[2]
-    if flag is None or len(ret) != 1:
-        return False, "closure does not return the negation of a flag"
-    # the push is control dependent on the same flag being true
+    def resolve(origins):
+        """(atom, negated): strip negations off a boolean's origin"""
+        neg = False
+        cur = frozenset(origins)
+        for _ in range(6):
+            if len(cur) == 1:
+                o = next(iter(cur))
+                if o[0] == "un" and o[1] == "Not":
+                    cur = frozenset(o[2])
+                    neg = not neg
+                    continue
+            break
+        return cur, neg
+    ret_atom, ret_neg = resolve(cpv.trace_local(0))
+    if not ret_atom or any(o[0] == "const" for o in ret_atom):
+        return False, "closure does not return a flag or its negation"
+    # the push happens exactly when the closure returns false (the entry is removed): the switch that
+    # gates it tests the same flag, and the edge that leads to the push is the one on which the returned
+    # value is false
     gated = False
     for bi, b in enumerate(c.blocks):
         t = b["t"]
-        if t["k"] == "switch" and frozenset(cpv.trace_operand(t["discr"])) == flag:
-            tb = t["otherwise"] if any(v == "0" for v, _ in t["targets"]) else None
-            if tb is not None and all(ccfg.dominates(tb, pb) for pb, _ in pushes) and len(ccfg.pred[tb]) == 1:
+        if t["k"] != "switch":
+            continue
+        g_atom, g_neg = resolve(cpv.trace_operand(t["discr"]))
+        if g_atom != ret_atom:
+            continue
+        zero = dict((v, x) for v, x in t["targets"]).get("0")
+        other = t.get("otherwise")
+        for edge_val, blk in ((False, zero), (True, other)):
+            if blk is None or len(ccfg.pred[blk]) != 1 or not all(ccfg.dominates(blk, pb) for pb, _ in pushes):
+                continue
+            atom_val = edge_val != g_neg            # value of the atom on this edge
+            returned = atom_val != ret_neg          # what the closure returns then
+            if returned is False:
                 gated = True
     key_pushed = all(("arg", 2) in arg_roots(c, cpv, t["args"][1]) for _, t in pushes)
     # the vector the closure pushes to is the one the publish loop iterates
@@ -386,6 +407,8 @@ def _source(ck, p, rule="R-C09-source"):
             ck.proved(rule, key, f.loc(t["ln"]), "did_save re-reads the file it was told has just been saved")
         elif isinstance(_only_when_not_open(f, bi), tuple):
             ck.refuted(rule, key, f.loc(t["ln"]), "%s reads the file from disk when doc_state.get(url) passed through %s is None: an open document can take that arm (its entry is filtered away), so its unsaved buffer is replaced by the disk content and every position published afterwards refers to another text than the client holds" % (key, _only_when_not_open(f, bi)[1]))
+        elif _only_when_not_open(f, bi) == "undecided":
+            ck.undecided(rule, key, f.loc(t["ln"]), "the disk is read on the None arm of an Option that comes out of a helper this rule does not follow: whether None means `the document is not open` is not decided")
         elif _only_when_not_open(f, bi):
             ck.proved(rule, key, f.loc(t["ln"]), "the disk is read only on the None arm of doc_state.get(url): the document is not open, so there is no buffer text to prefer")
         else:
@@ -393,11 +416,15 @@ def _source(ck, p, rule="R-C09-source"):
                        "%s refreshes the document from the file on disk: with an unsaved buffer the diagnostics published afterwards are those of the disk content, not of the newest text the client sent" % key)
 
 
+LOSSY_OPT = {"filter", "and_then", "filter_map", "take_if", "xor", "zip", "then", "then_some", "ok", "ok_or"}
+
+
 def _only_when_not_open(f, call_bb):
     """the call is dominated by the `None` edge of a switch on an Option that derives from
     `<doc_state lock>.get(url)`"""
     cfg = Cfg(f)
     pv = Prov(f)
+    maybe = False
     for bi, b in enumerate(f.blocks):
         t = b["t"]
         if t["k"] != "switch":
@@ -418,9 +445,27 @@ def _only_when_not_open(f, call_bb):
             for r in roots:
                 if r[0] == "call" and method(f.blocks[r[1]]["t"]) == "get" and "doc_state" in _lock_chain(f, pv, f.blocks[r[1]]["t"]["args"][0]):
                     # between get(url) and the test nothing may turn Some into None: "not open" must mean "no entry"
-                    lossy = sorted({method(f.blocks[x[1]]["t"]) for x in roots if x[0] == "call"} & {"filter", "and_then", "filter_map", "take_if", "xor", "zip", "then", "then_some", "ok", "ok_or"})
+                    lossy = sorted({method(f.blocks[x[1]]["t"]) for x in roots if x[0] == "call"} & LOSSY_OPT)
                     return ("lossy", lossy) if lossy else True
-    return False
+            # the look-up may sit in an async helper that did not exist on the reference tree
+            # (`self.open_document_text(url).await`): look into its body
+            for r in roots:
+                if r[0] != "call":
+                    continue
+                body = new_async_helper(facts.load(), f.blocks[r[1]]["t"])
+                if body is None:
+                    if (inst_of(f.blocks[r[1]]["t"]) or "").startswith("harper_ls::") and not (inst_of(f.blocks[r[1]]["t"]) or "").endswith(("::update_document", "::update_document_from_file")):
+                        maybe = True
+                    continue
+                bv = Prov(body)
+                gets = [(b2, t2) for b2, t2 in body.calls() if method(t2) == "get" and "doc_state" in _lock_chain(body, bv, t2["args"][0])]
+                lossy = sorted({method(t2) for _, t2 in body.calls()} & LOSSY_OPT)
+                if len(gets) == 1 and not lossy:
+                    return True
+                if gets and lossy:
+                    return ("lossy", lossy)
+                maybe = True
+    return "undecided" if maybe else False
 
 
 def _roots_of(f, pv, origins, depth=0, seen=None):
@@ -498,14 +543,22 @@ def _order(ck, p):
 
 def _close(ck, p):
     rule = "R-C09-close"
-    c = p.fns.get("harper_ls::backend::{impl#0}::update_document::{closure#0}::{closure#0}")
-    if not ck.anchor(rule, "Backend::update_document:state-creating closure", c):
+    top = p.fns.get("harper_ls::backend::{impl#0}::update_document::{closure#0}")
+    if not ck.anchor(rule, "Backend::update_document", top):
+        return
+    # the literal that creates a document's state: in the or_insert_with closure, or (Entry::Vacant form, a
+    # helper spliced in by A0) in the body of update_document itself
+    c, agg = None, []
+    for body in with_closures(p, top):
+        a2 = [sx for b in body.blocks if not b["cleanup"] for sx in b["s"] if sx["k"] == "assign" and sx["rv"]["k"] == "agg" and sx["rv"].get("name", "").endswith("DocumentState") and "language_id" in (sx["rv"].get("fields") or [])]
+        if a2:
+            c, agg = body, agg + a2
+    if not ck.anchor(rule, "Backend::update_document:state-creating literal", c):
         return
     ck.saw(c)
     pv = Prov(c)
-    agg = [sx for b in c.blocks for sx in b["s"] if sx["k"] == "assign" and sx["rv"]["k"] == "agg" and sx["rv"].get("name", "").endswith("DocumentState")]
-    if len(agg) != 1 or "language_id" not in (agg[0]["rv"].get("fields") or []):
-        ck.refuted(rule, "anchor-missing:DocumentState-literal", c.span, "the DocumentState literal with a language_id field was not found in the or_insert_with closure")
+    if len(agg) != 1:
+        ck.undecided(rule, "update_document:created-language-id", c.span, "%d DocumentState literals with a language_id field under update_document: which one creates the state is not decided" % len(agg))
         return
     fields = dict(zip(agg[0]["rv"]["fields"], agg[0]["rv"]["ops"]))
     roots = arg_roots(c, pv, fields["language_id"])
